@@ -18,7 +18,7 @@ from pathlib import PurePosixPath
 
 from harness import core
 
-LIVE_MODEL = "str"  # which Lean function mirrors the working tree: "str" (pinned commit) or "comp" (after fix)
+LIVE_MODEL = "comp"  # which Lean function mirrors the working tree: "str" (pinned commit) or "comp" (after fix)
 
 META = {
     "engine": "Mount",
@@ -34,7 +34,10 @@ META = {
     "generator reach; PurePosixPath semantics for path components.",
     "rule": "case = (mount table skeleton, path); distinct by canonical JSON; non-trivial = table has >= 2 entries and the path "
     "has a string-prefix sibling or a nested mount among the entries",
-    "assumptions": ["mount points are printed by `mount` in canonical spelling (no '//', no trailing '/')"],
+    "assumptions": [
+        "mount points are printed by `mount` in canonical spelling (no '//', no trailing '/')",
+        "paths are absolute and do not start with exactly two slashes (POSIX leaves '//x' implementation-defined; pathlib treats '//' as a distinct root)",
+    ],
     "trusted": ["model of MountIndentifier.get_mount/parse_mount_table written by hand (Mount/Model.lean)"],
 }
 
@@ -80,6 +83,10 @@ def gen_case(rng) -> dict:
         path = "/" + rng.choice(NAMES) + rng.choice(["", "/f"])
     if not path.startswith("/"):  # the entry was "/" itself; only absolute paths are in the property's domain
         path = "/" + path
+    if path.startswith("//") and not path.startswith("///"):
+        # exactly two leading slashes are an implementation-defined root in POSIX (pathlib keeps '//' as a
+        # different root); outside the modelled domain, see META["assumptions"]
+        path = path[1:]
     path2 = "/" + rng.choice(NAMES) + "/g"
     style = rng.choice(["linux", "osx"])
     return {"pairs": pairs, "path": path, "path2": path2, "style": style}
